@@ -152,7 +152,7 @@ def execute(sc) -> Result:
         dirs.append(dU)
         runU = driver.run_scenario(sc, dU)
         account_run(res, runU, sc)
-        res.history_key = abstract_history(runU)
+        res.history_key = abstract_history(runU, sc)
         if runU.error is not None:
             v, foreign = crash_violation(ID, runU, ANCHORS)
             if v is not None:
@@ -164,7 +164,7 @@ def execute(sc) -> Result:
         for r in U.recs:
             res.feed(r["time"], *[r["data"][k] for k in sorted(r["data"])])
         Urec_by_time = {r["time"]: r for r in U.recs}
-        writesU = runU.rec.snaps_at("output.write")
+        writesU = runU.rec.record_snaps(sc["output"]["period"])
         p, numrec, nsteps = sc["output"]["period"], sc["output"]["numrec"], sc["time"]["nsteps"]
         nrec = nrecords(sc)
         nfiles_complete_before_end = (nrec - 1) // numrec if nrec % numrec else nrec // numrec - 1
@@ -206,7 +206,7 @@ def self_restart(res: Result, sc, U, Urec_by_time, writesU, dU, k: int, s: int, 
     run1 = driver.run_scenario(sc, d1, write=False, crash_after=s)
     account_run(res, run1, sc)
     res.faults["crash"] += 1
-    nwrites = len([c for c in run1.rec.calls if c[:2] == ("output", "write")])
+    nwrites = run1.rec.records_due(p)
     closed = nwrites // numrec                      # files whose last record has been written
     if nwrites % numrec:
         res.probes["crash_in_partial_file"] += 1
@@ -308,7 +308,7 @@ def self_restart(res: Result, sc, U, Urec_by_time, writesU, dU, k: int, s: int, 
                                    crash_after=s2)
         account_run(res, runk, sc)
         res.faults["crash"] += 1
-        nw = len([c for c in runk.rec.calls if c[:2] == ("output", "write")])
+        nw = runk.rec.records_due(p)
         closed = nw // numrec
         if runk.error is not None or cur_first + closed <= n_from:
             break
